@@ -12,8 +12,8 @@ a cached field (predict / predictive_gradients fast path) gets a call-pre obliga
 The VALUES computed on the fast path are opaque here (class Opq): they are the business of the CAS tier (contracts/c10_cas.py)."""
 import z3
 
-from pyvc.core import cur, forall_range, OutOfSubset
-from pyvc.engine import Contract, NS, make_object
+from pyvc.core import cur, forall_range, OutOfSubset, program_exception
+from pyvc.engine import Contract, NS, make_object, inline
 from pyvc.values import SInt, SReal, SBool, Sym, lift, _b
 from pyvc.sarray import SArr, Cell, zi
 from pyvc import npspec
@@ -79,12 +79,36 @@ def _opq_aware(plain):
     return f
 
 
-class _LinalgSpec:
+class _LinalgModule:
+    """what the analysed code sees as `np.linalg`: solve on opaque values, the REAL exception class LinAlgError; like the engine's numpy module
+    proxy, an attribute that the INSTALLED numpy.linalg does not have is a program AttributeError (that is how removed aliases such as
+    np.linalg.linalg surface), anything else not listed is out of subset"""
+
+    def __init__(self):
+        import numpy as _np
+        self.__dict__['_real'] = _np.linalg
+        self.__dict__['LinAlgError'] = _np.linalg.LinAlgError
+
     @staticmethod
     def solve(a, b):
         if isinstance(a, Opq) or isinstance(b, Opq):
             return Opq('solve', tuple(p for p in (a, b) if isinstance(p, Opq)))
         raise OutOfSubset('np.linalg.solve on non-opaque values')
+
+    def __getattr__(self, name):
+        import numpy as _np
+        if not hasattr(self._real, name):
+            raise program_exception(AttributeError("module 'numpy.linalg' has no attribute %r (installed numpy %s)" % (name, _np.__version__)))
+        raise OutOfSubset('numpy.linalg.%s is not in the spec table' % name)
+
+
+_LinalgSpec = _LinalgModule()
+
+
+def lib_linalg_error():
+    """the GP library's documented numerical failure mode (raised deliberately by the stub of gp.optimize)"""
+    import numpy as _np
+    return program_exception(_np.linalg.LinAlgError('not positive definite, even with jitter.'))
 
 
 class _R:
@@ -428,8 +452,9 @@ class Update(_Base):
     target = GPR + 'update'
 
     def __init__(self, form):
-        self.form = form          # first | later | later+optimize
+        self.form = form          # first | later | later+optimize | later+optimize, library raises LinAlgError (the REAL optimize() inlined)
         self.label = form
+        self.opt_fails = 'raises' in form
         self.vacuity_probe = form != 'first'
 
     def setup(self, vc):
@@ -441,6 +466,12 @@ class Update(_Base):
         def make(self_, x, y, kernel=None, noise_var=None, mean_function=None):
             g = new_gp(vc, s, 'gp_new', X=x, Y=y, kern=kernel, created=True)        # assumed GPy fact: GPRegression(X, Y).X == X, .Y == Y
             s.made.append(dict(gp=g, kernel=kernel, noise_var=noise_var, mean_function=mean_function))
+            if self.opt_fails:
+                def gp_optimize(gp_, optimizer=None, max_iters=None, **kw):
+                    s.opt_calls.append(gp_)
+                    gp_.ver = vc.fresh_int('ver_after_failed_optimize')      # the optimiser may have moved the hyper-parameters before it failed
+                    raise lib_linalg_error()
+                type(g).optimize = gp_optimize
             return g
 
         def init_gp(self_, x, y):
@@ -469,8 +500,10 @@ class Update(_Base):
             gp0 = new_gp(vc, s, 'gp_old', X=s.X0, Y=s.Y0, kern=kern, Gaussian_noise=make_object('GaussianStub', attrs=dict(variance=s.noise0)), mean_function=None)
         s.gp0 = gp0
         s.self = make_object('GPyRegressionStub', attrs=dict(input_dim=SInt(s.dm), _gp=gp0, is_sampling=SBool(s.sampling0), _rbf_is_cached=SBool(s.cached0)),
-                             methods=dict(_make_gpy_instance=make, _init_gp=init_gp, optimize=optimize))
-        kw = {'optimize': True} if self.form == 'later+optimize' else {}
+                             methods=dict(_make_gpy_instance=make, _init_gp=init_gp, optimize=(inline(vc, GPR + 'optimize') if self.opt_fails else optimize)))
+        if self.opt_fails:
+            s.self.optimizer, s.self.max_opt_iters = 'scg', SInt(z3.Int('max_opt_iters'))
+        kw = {'optimize': True} if 'optimize' in self.form else {}
         return s, (s.self, s.x, s.y), kw
 
     def requires(self, s):
@@ -497,8 +530,10 @@ class Update(_Base):
         out += [('evidence shapes: (n + m, input_dim) and (n + m, 1)', z3.And(X.shape[0] == n0 + m, X.shape[1] == d, Y.shape[0] == n0 + m, Y.shape[1] == 1)),
                 ('the new evidence is appended after the old one, in order',
                  forall_range(0, m, lambda i: z3.And(Y.at(n0 + i, 0) == s.yat(i), forall_range(0, d, lambda c: X.at(n0 + i, c) == s.x.at(i, c), 'c')), 'i')),
-                ('hyper-parameters are optimised iff asked for', z3.BoolVal(len(s.opt_calls) == (1 if self.form == 'later+optimize' else 0) and all(g is gp for g in s.opt_calls))),
+                ('hyper-parameters are optimised iff asked for', z3.BoolVal(len(s.opt_calls) == (1 if 'optimize' in self.form else 0) and all(g is gp for g in s.opt_calls))),
                 ('INV re-established: _rbf_is_cached => the cache was computed from the current _gp', inv(o, s))]
+        if self.opt_fails:
+            out.append(('a numerical failure of the GP optimiser is absorbed: the cache is marked stale (and the evidence above is intact)', z3.Not(_b(o._rbf_is_cached))))
         return out
 
 
@@ -507,6 +542,10 @@ class Optimize(_Base):
     vacuity_probe = True
     target = GPR + 'optimize'
 
+    def __init__(self, fails=False):
+        self.fails = fails          # the GP library optimiser raises np.linalg.LinAlgError (its documented numerical failure mode)
+        self.label = 'library raises LinAlgError' if fails else None
+
     def setup(self, vc):
         ghost_state(vc, s := NS())
         s.calls = []
@@ -514,6 +553,8 @@ class Optimize(_Base):
         def gp_optimize(self_, optimizer=None, max_iters=None, **kw):
             s.calls.append((optimizer, max_iters, kw))
             self_.ver = vc.fresh_int('ver_after_optimize')       # GPy re-fits the hyper-parameters: any new state
+            if self.fails:
+                raise lib_linalg_error()
         gp = new_gp(vc, s, 'gp')
         type(gp).optimize = gp_optimize
         s.gp = gp
@@ -529,9 +570,35 @@ class Optimize(_Base):
         return [('the GP library optimiser runs once with the configured optimiser and iteration limit',
                  z3.BoolVal(len(s.calls) == 1 and s.calls[0][0] == 'scg' and s.calls[0][1] is o.max_opt_iters and not s.calls[0][2])),
                 ('the model object (hence the evidence) is kept', z3.BoolVal(o._gp is s.gp)),
-                ('INV re-established: _rbf_is_cached => the cache was computed from the current hyper-parameters', inv(o, s))]
+                ('INV re-established: _rbf_is_cached => the cache was computed from the current hyper-parameters', inv(o, s))] + \
+            ([('a numerical failure of the GP optimiser is absorbed (no exception escapes) and the cache is marked stale', z3.Not(_b(o._rbf_is_cached)))] if self.fails else [])
+
+
+class InitRejects(_Base):
+    """__init__ input validation: the three documented ValueError branches"""
+    target = GPR + '__init__'
+    cover = False
+
+    def __init__(self, form):
+        self.form = form
+        self.label = 'rejects ' + form
+
+    def setup(self, vc):
+        ghost_state(vc, s := NS())
+        s.self = make_object('GPyRegressionStub')
+        kw = {'parameter_names is a string': dict(parameter_names='ab', bounds={'ab': (0, 1)}),
+              'bounds of the wrong length': dict(parameter_names=['a', 'b'], bounds={'a': (0, 1)}),
+              'bounds not a dict': dict(parameter_names=['a', 'b'], bounds=[(0, 1), (0, 1)])}[self.form]
+        return s, (s.self,), kw
+
+    def raises(self, s):
+        return {'ValueError': z3.BoolVal(True)}
+
+    def ensures(self, s, result):
+        return [('invalid configuration is rejected with ValueError', z3.BoolVal(False))]
 
 
 CONTRACTS = [FastPathProtocol('predict'), FastPathProtocol('predictive_gradients'), NoModelYet('predict'), NoModelYet('predictive_gradients'),
              CacheRBF(), Init('defaults'), Init('names+bounds'), Init('gp-given'), InitGP('defaults'), InitGP('kernel'), InitGP('noise_var'), InitGP('mean_function'),
-             Update('first'), Update('later'), Update('later+optimize'), Optimize()]
+             Update('first'), Update('later'), Update('later+optimize'), Update('later+optimize, library raises LinAlgError'), Optimize(), Optimize(fails=True),
+             InitRejects('parameter_names is a string'), InitRejects('bounds of the wrong length'), InitRejects('bounds not a dict')]
